@@ -59,8 +59,9 @@ package dns64
 //@ func negativeAAAATTL
 //@   requires m != nil && rrsWF(m.Ns)
 //@   modifies nothing
-//@   ensures (forall i int :: {m.Ns[i]} 0 <= i && i < len(m.Ns) ==> !dyntype(m.Ns[i], *dns.SOA)) ==> result == 0
-//@   ensures forall i int :: {m.Ns[i]} 0 <= i && i < len(m.Ns) && dyntype(m.Ns[i], *dns.SOA) && (forall j int :: {m.Ns[j]} 0 <= j && j < i ==> !dyntype(m.Ns[j], *dns.SOA)) ==> result == soaNeg(as(m.Ns[i], *dns.SOA))
+//@   # presence is reported apart from the value: an SOA whose TTL has run down to 0 is a lifetime of zero, not "no SOA"
+//@   ensures (forall i int :: {m.Ns[i]} 0 <= i && i < len(m.Ns) ==> !dyntype(m.Ns[i], *dns.SOA)) ==> !result1
+//@   ensures forall i int :: {m.Ns[i]} 0 <= i && i < len(m.Ns) && dyntype(m.Ns[i], *dns.SOA) && (forall j int :: {m.Ns[j]} 0 <= j && j < i ==> !dyntype(m.Ns[j], *dns.SOA)) ==> result1 && result0 == soaNeg(as(m.Ns[i], *dns.SOA))
 //@   loop 1 invariant 0 <= rangeidx && rangeidx <= len(m.Ns)
 //@   loop 1 invariant forall j int :: {m.Ns[j]} 0 <= j && j < rangeidx ==> !dyntype(m.Ns[j], *dns.SOA)
 //@
@@ -108,17 +109,17 @@ package dns64
 //@   assert at return: result != nil && !result.AuthenticatedData
 //@
 //@ # synthesis (abstracting tier): the synthesised TTL is at most the negative TTL of the original AAAA reply when it
-//@ # has one (else at most 600 s), and at most every A record's TTL; every synthesised record is built from an A
+//@ # has an SOA, whatever its value (else at most 600 s), and at most every A record's TTL; every synthesised record is built from an A
 //@ # record of the secondary answer, its owner and the configured prefix; the result never carries AD
 //@ func (*responseWriter).synthesise
 //@   abstract
 //@   nosafety all pre
-//@   loop 1 invariant (lastret("middleware/dns64.negativeAAAATTL") == 0 ==> ttl <= 600) && (lastret("middleware/dns64.negativeAAAATTL") > 0 ==> ttl <= lastret("middleware/dns64.negativeAAAATTL")) && forall j int :: {addresses[j]} 0 <= j && j < rangeidx ==> ttl <= addresses[j].Hdr.Ttl
+//@   loop 1 invariant (!lastret("middleware/dns64.negativeAAAATTL", 1) ==> ttl <= 600) && (lastret("middleware/dns64.negativeAAAATTL", 1) ==> ttl <= lastret("middleware/dns64.negativeAAAATTL")) && forall j int :: {addresses[j]} 0 <= j && j < rangeidx ==> ttl <= addresses[j].Hdr.Ttl
 //@   loop 2 invariant forall j int :: {addresses[j]} 0 <= j && j < len(addresses) ==> ttl <= addresses[j].Hdr.Ttl
 //@   loop 3 invariant forall j int :: {addresses[j]} 0 <= j && j < len(addresses) ==> ttl <= addresses[j].Hdr.Ttl
 //@   loop 4 invariant forall j int :: {addresses[j]} 0 <= j && j < len(addresses) ==> ttl <= addresses[j].Hdr.Ttl
 //@   assert at call middleware/dns64.synthesizeAAAA#1: arg3 <= arg1.Hdr.Ttl
-//@   assert at call middleware/dns64.synthesizeAAAA#1: arg0 == a.Hdr.Name && arg1 == a && arg2 == p.net && arg3 == ttl && (lastret("middleware/dns64.negativeAAAATTL") == 0 ==> ttl <= 600) && (lastret("middleware/dns64.negativeAAAATTL") > 0 ==> ttl <= lastret("middleware/dns64.negativeAAAATTL"))
+//@   assert at call middleware/dns64.synthesizeAAAA#1: arg0 == a.Hdr.Name && arg1 == a && arg2 == p.net && arg3 == ttl && (!lastret("middleware/dns64.negativeAAAATTL", 1) ==> ttl <= 600) && (lastret("middleware/dns64.negativeAAAATTL", 1) ==> ttl <= lastret("middleware/dns64.negativeAAAATTL"))
 //@   assert at call middleware/dns64.negativeAAAATTL#1: arg0 == orig
 //@   assert at call (middleware.Queryer).Query#1: arg2.CheckingDisabled == w.req.CheckingDisabled && arg2.RecursionDesired
 //@   assert at return#7: result0 != nil && !result0.AuthenticatedData && result1 == nil
